@@ -6,7 +6,7 @@
     splits the line and converts hexadecimal. *)
 From Coq Require Import Floats.SpecFloat.
 From HP Require Import Base.Bytes Base.Utf8 Base.Num Base.GoFloat Model.Scanner Model.Parser Model.Elements
-  Model.Resolver Model.Dates Model.Tree Model.Writer Model.Reporters Model.Cli Model.Syntax Model.Csv Model.Channel.
+  Model.Resolver Model.Dates Model.Tree Model.Writer Model.Reporters Model.Cli Model.Argv Model.Syntax Model.Csv Model.Channel.
 Open Scope N_scope.
 
 Definition kv := list (bytes * bytes).
@@ -189,7 +189,22 @@ Definition show_outcome (o : outcome) : bytes :=
   | Panicked site => b "panic:" ++ hex site
   end ++ b " " ++ hex (out_stdout o).
 
+(** the argument vector and the environment as the program receives them (keys [a] - one per argument, in order - and
+    [env.NAME]): when the request carries them, the invocation is what [Argv.parse_argv] reads from them (the flag syntax, the
+    aliases, [--flag=false], the environment fall-backs, the help aliases - Model/Argv.v), not the record the harness filled in *)
+Definition argv_of (l : kv) : list bytes := map snd (filter (fun p => beq (fst p) (b "a")) l).
+Definition env_of (l : kv) : list (bytes * bytes) :=
+  flat_map (fun p => if is_prefix (b "env.") (fst p) then [(skipn 4 (fst p), snd p)] else []) l.
+
 Definition do_cli (l : kv) : bytes :=
+  if has "argv" l then
+    match parse_argv (argv_of l) (env_of l) with
+    | ArgvOk i => show_outcome (run B64 (decode_world l) i)
+    | ArgvHelp => b "fail:unmodelled:help "
+    | ArgvUsage => b "fail:usage-cli "
+    | ArgvUnmodelled => b "fail:unmodelled:argv "
+    end
+  else
   match decode_command l with
   | None => b "bad-request"
   | Some c => show_outcome (run B64 (decode_world l) (decode_invocation l c))
